@@ -7,6 +7,7 @@ import TrackVerif.LT.DecodeLemmas
 import TrackVerif.LT.Spec
 import TrackVerif.LT.SpecFacts
 import TrackVerif.LT.Reencode
+import TrackVerif.LT.Utf8Lemmas
 import TrackVerif.Generated.LT
 /-
   C01 — LapTimer files survive encode → decode → encode unchanged.
@@ -316,6 +317,30 @@ theorem file_survives_roundtrip (db q : V) (chars : List Char) (body : List UInt
   rw [reencode_marshal Spec.schema spec_facts 64 "LapTimerDB" false (.named "DB") _ db ts q hts hrt hst]
   subst hc htoks
   rfl
+
+/-- **UTF-8**: Go's byte spelling of any string is read back by the decoder's UTF-8 reader as
+    that string (every character: 1-, 2-, 3- and 4-byte forms, no surrogates) -/
+theorem utf8_roundtrip (cs : List Char) :
+    utf8Decode ((cs.flatMap utf8Enc).length + 1) (cs.flatMap utf8Enc) = some cs :=
+  utf8Decode_bytes cs
+
+/-- **the file as bytes, every database**: the decoder returns the leaf-wise round trip for the
+    UTF-8 bytes of the document the encoder writes, and for a stable database encoding the
+    result writes the same document again -/
+theorem bytes_survive_roundtrip (db q : V) (chars : List Char)
+    (henc : encodeDoc Spec.schema db = .ok chars)
+    (hrt : rtOf Spec.schema 64 false (.named "DB") (zeroOf Spec.schema 8 (.named "DB")) db = some q) :
+    decodeDoc Spec.schema SpecSchema.cp1252 (chars.flatMap utf8Enc) = .ok q ∧
+      (stableOf Spec.schema 64 false (.named "DB") (zeroOf Spec.schema 8 (.named "DB")) db = true →
+        encodeDoc Spec.schema q = .ok chars) := by
+  obtain ⟨t, _, _, _, hc⟩ := encode_renders db chars henc
+  have hsplit : chars.flatMap utf8Enc = declBytes ++ (chars.drop declChars.length).flatMap utf8Enc := by
+    have hd : declChars.flatMap utf8Enc = declBytes := by decide +kernel
+    rw [hc, xmlHeader_eq, List.append_assoc, List.drop_left, List.flatMap_append, hd]
+  have hbody := utf8Decode_bytes (chars.drop declChars.length)
+  rw [hsplit]
+  refine ⟨decode_of_encode db q chars _ henc hrt hbody, fun hst => ?_⟩
+  exact (file_survives_roundtrip db q chars _ henc hrt hst hbody).2
 
 /-- the stability premise cannot be dropped, and the recorded finding is exactly its failure: a
     lap whose `omitempty` one-decimal ambient temperature is 0.04 has a leaf-wise round trip, is
